@@ -195,6 +195,8 @@ class EventListHeap(EventListInterface):
         if (self.contains(event)):
             self._event_list.remove((event.time, -event.priority,
                                      event._id, event))
+            # list.remove() shifts the tail: restore the heap invariant
+            heapq.heapify(self._event_list)
             return True
         return False
 
